@@ -233,8 +233,10 @@ TraceStep(e) ==
          \* after a panic the partially written state is unspecified: two panicking calls agree
          norm(sn) == IF sn.pn THEN [pn |-> TRUE] ELSE MaskSnap(sn, pr.occ)
          \* signature of a pair difference: one side panicked through the nil parent of a nullable embed with non-scalar children
-         pairSig == IF paired /\ pm[pr.key][k].pn # snap.pn /\ (\E i \in DOMAIN M.fields : M.fields[i].pmixed)
-                    THEN "panic-differs/embedmixed" ELSE ""
+         \* which was nil before this CopyFrom
+         pairSig == IF paired /\ e = "CopyFrom" /\ pm[pr.key][k].pn # snap.pn
+                       /\ (\E i \in DOMAIN M.fields : M.fields[i].pmixed /\ ParentTrig(M.fields[i], obj) # "")
+                    THEN "panic-differs/CopyFrom/embedmixed/parent=nil" ELSE ""
          pairViol == (IF paired /\ norm(pm[pr.key][k]) # norm(snap) THEN {[VG(pr.clause, pr.key) EXCEPT !.sig = pairSig]} ELSE {})
                      \* an excluded field has no attribute anywhere in what CopyTo writes
                      \cup (IF paired /\ e = "CopyTo" /\ \E i \in DOMAIN pr.occ : PresentAt(Line.tf, pr.occ[i].ap)
